@@ -52,6 +52,9 @@ def cases(draw, name, tier, many=False):
                                              "aproxy", "areiter", "alateclose"]))
             s["eqsrc"] = draw(st.integers(0, 3)) == 0
             s["falsy"] = draw(st.integers(0, 3)) == 0
+            if draw(st.integers(0, 5)) == 0 and s["fl"] not in ("agen", "aclass_noclose", "areiter"):
+                # this source's own aclose() fails (after having closed it): the OTHER sources must be released anyway
+                s["cfault"] = "LookupError"
             s["csusp"] = draw(st.booleans())
             s["cret"] = draw(st.sampled_from([None, None, True, "closed"]))
     if name == "chain_from_iterable":
